@@ -240,3 +240,34 @@ Definition load_block (decompress : N -> bytes -> outcome bytes) (file : bytes) 
 
 Definition decompress_none (codec : N) (b : bytes) : outcome bytes :=
   if codec =? 0 then Done b else Fail (EIo IO_OTHER).
+
+(* ---- several cursors over one file: operations of cursor [cid], and clones (a clone is a value copy
+        of its original's state and gets the next free identifier) ---- *)
+Fixpoint set_nth {A} (i : nat) (x : A) (l : list A) {struct l} : list A :=
+  match l, i with
+  | [], _ => []
+  | _ :: r, O => x :: r
+  | a :: r, S i' => a :: set_nth i' x r
+  end.
+
+Inductive mop : Type := MOp (cid : nat) (o : op) | MClone (cid : nat).
+
+(* cursor states indexed by identifier; an unknown identifier is an error of the harness *)
+Fixpoint mrun (ld : N -> N -> outcome block) (root levels : N) (sts : list cstate) (ops : list mop)
+  : outcome (list cstate * list (option entry)) :=
+  match ops with
+  | [] => Done (sts, [])
+  | MClone i :: r =>
+    match nth_error sts i with
+    | Some st => mrun ld root levels (sts ++ [st]) r
+    | None => Fail EFuel
+    end
+  | MOp i o :: r =>
+    match nth_error sts i with
+    | Some st =>
+      do x <- cstep ld root levels st o;
+      do y <- mrun ld root levels (set_nth i (fst x) sts) r;
+      Done (fst y, snd x :: snd y)
+    | None => Fail EFuel
+    end
+  end.
